@@ -1095,3 +1095,249 @@ pub fn drive_linear(seed: u64, n: usize, sink: &mut Sink) -> usize {
     }
     nontrivial
 }
+
+// ===================================================================== C17 approximate equality
+
+use approx::{AbsDiffEq, RelativeEq};
+
+fn approx_event<T>(ty: &str, a: &T, b: &T, fa: &[f64], fb: &[f64], sa: &[usize], sb: &[usize], eps: f64, rel: f64) -> Value
+where
+    T: AbsDiffEq<Epsilon = f64> + RelativeEq,
+{
+    json!({"ev":"approx","type":ty,"sa":sa,"a":jbs(fa),"sb":sb,"b":jbs(fb),"eps":jb(eps),"rel":jb(rel),
+        "abs_ab":a.abs_diff_eq(b, eps),"abs_ba":b.abs_diff_eq(a, eps),
+        "rel_ab":a.relative_eq(b, eps, rel),"rel_ba":b.relative_eq(a, eps, rel)})
+}
+
+const TOLS: [(f64, f64); 5] = [(0.0, 0.0), (f64::EPSILON, f64::EPSILON), (1e-6, 1e-9), (10.0, 0.5), (1e-3, 0.0)];
+
+/// all the pairs for one value of a fixed-shape type: itself, and every single position perturbed
+fn approx_single<T>(ty: &str, mk: &dyn Fn(&[f64]) -> T, base: &[f64], shape: &[usize], rng: &mut Rng, sink: &mut Sink) -> usize
+where
+    T: AbsDiffEq<Epsilon = f64> + RelativeEq,
+{
+    let a = mk(base);
+    let mut n = 0;
+    for &(eps, rel) in &TOLS {
+        sink.ev(approx_event(ty, &a, &a, base, base, shape, shape, eps, rel));
+        for p in 0..base.len() {
+            for k in 0..3 {
+                let mut fb = base.to_vec();
+                let scale = if eps > 0.0 { eps } else { fb[p].abs().max(1e-300) * f64::EPSILON };
+                fb[p] += match k {
+                    0 => scale / 2.0,
+                    1 => 2.0 * scale + fb[p].abs() * 4.0 * rel,
+                    _ => -(1.0 + rng.unit()) * (scale * 4.0 + fb[p].abs() * (4.0 * rel + 1e-3)),
+                };
+                let b = mk(&fb);
+                sink.ev(approx_event(ty, &a, &b, base, &fb, shape, shape, eps, rel));
+                n += 1;
+            }
+        }
+    }
+    n
+}
+
+macro_rules! approx_form {
+    ($T:ty, $rng:expr, $sink:expr, $n:expr) => {{
+        let base = flat_of::<$T>($rng);
+        let shape = [base.len()];
+        $n += approx_single::<$T>(&<$T as Form>::name(), &|v| <$T>::from_flat(v), &base, &shape, $rng, $sink);
+    }};
+}
+
+macro_rules! approx_pw {
+    ($T:ty, $rng:expr, $sink:expr, $n:expr) => {{
+        let k = 1 + $rng.below(3) as usize;
+        let ar = <$T as Form>::arity().unwrap() + 1;
+        let mut base: Vec<f64> = Vec::new();
+        let ends = crate::order::random_ends($rng, k);
+        for e in &ends {
+            base.push(if e.is_finite() { *e } else { 1.0 });
+            base.extend(flat_of::<$T>($rng));
+        }
+        let shape: Vec<usize> = vec![ar; k];
+        let ty = format!("Piecewise<{}>", <$T as Form>::name());
+        $n += approx_single::<Piecewise<$T>>(&ty, &|v| pw_from_flat::<$T>(v), &base, &shape, $rng, $sink);
+        // Segment alone
+        let sty = format!("Segment<{}>", <$T as Form>::name());
+        $n += approx_single::<Segment<$T>>(&sty, &|v| Segment::<$T>::from_flat(v), &base[..ar], &[ar], $rng, $sink);
+        // different numbers of pieces: a prefix, the empty function, one piece more
+        let a = pw_from_flat::<$T>(&base);
+        let mut longer = base.clone();
+        longer.extend_from_slice(&base[base.len() - ar..]);
+        let shape_l: Vec<usize> = vec![ar; k + 1];
+        let b = pw_from_flat::<$T>(&longer);
+        let empty: Piecewise<$T> = Piecewise { segments: vec![] };
+        for &(eps, rel) in &TOLS {
+            $sink.ev(approx_event(&ty, &a, &b, &base, &longer, &shape, &shape_l, eps, rel));
+            $sink.ev(approx_event(&ty, &empty, &a, &[], &base, &[], &shape, eps, rel));
+            $sink.ev(approx_event(&ty, &empty, &empty, &[], &[], &[], &[], eps, rel));
+            $n += 2;
+        }
+    }};
+}
+
+pub fn drive_approx(seed: u64, rounds: usize, sink: &mut Sink) -> usize {
+    let mut rng = Rng::new(seed);
+    let mut n = 0usize;
+    for _ in 0..rounds {
+        let rng = &mut rng;
+        approx_form!(Poly0, rng, sink, n);
+        approx_form!(Poly1, rng, sink, n);
+        approx_form!(Poly2, rng, sink, n);
+        approx_form!(Poly3, rng, sink, n);
+        approx_form!(Poly4, rng, sink, n);
+        approx_form!(Poly5, rng, sink, n);
+        approx_form!(Poly6, rng, sink, n);
+        approx_form!(Poly7, rng, sink, n);
+        approx_form!(Poly8, rng, sink, n);
+        approx_form!(PolyN, rng, sink, n);
+        approx_form!(Log<Poly0>, rng, sink, n);
+        approx_form!(Log<Poly3>, rng, sink, n);
+        approx_form!(Log<Poly8>, rng, sink, n);
+        approx_form!(IntOfLog<Poly0>, rng, sink, n);
+        approx_form!(IntOfLog<Poly2>, rng, sink, n);
+        approx_form!(IntOfLog<Poly7>, rng, sink, n);
+        approx_form!(IntOfLogPoly4, rng, sink, n);
+        approx_pw!(Poly1, rng, sink, n);
+        approx_pw!(Poly3, rng, sink, n);
+        approx_pw!(Log<Poly2>, rng, sink, n);
+        approx_pw!(IntOfLog<Poly1>, rng, sink, n);
+        approx_pw!(IntOfLogPoly4, rng, sink, n);
+        // PolyN of different lengths
+        {
+            let a = coeffs(rng, 3);
+            let mut b = a.clone();
+            b.push(0.0);
+            for &(eps, rel) in &TOLS {
+                sink.ev(approx_event("PolyN", &PolyN(a.clone()), &PolyN(b.clone()), &a, &b, &[3], &[4], eps, rel));
+                sink.ev(approx_event("PolyN", &PolyN(vec![]), &PolyN(vec![]), &[], &[], &[0], &[0], eps, rel));
+                n += 1;
+            }
+        }
+    }
+    n
+}
+
+// ===================================================================== C18 serialization round trips
+
+use serde::{de::DeserializeOwned, Serialize};
+
+/// non-NaN contents: random bits, subnormals, -0.0, extremes, infinities
+pub fn serde_number(rng: &mut Rng, finite_only: bool) -> f64 {
+    loop {
+        let x = match rng.below(12) {
+            0 => -0.0,
+            1 => 0.0,
+            2 => f64::from_bits(1 + rng.below((1 << 52) - 1)),
+            3 => -f64::from_bits(1 + rng.below((1 << 52) - 1)),
+            4 => *rng.pick(&[f64::MAX, -f64::MAX, f64::MIN_POSITIVE, -f64::MIN_POSITIVE]),
+            5 => if finite_only { 1.0 } else { *rng.pick(&[f64::INFINITY, f64::NEG_INFINITY]) },
+            6 => rng.nice(),
+            7 => f64::from_bits(rng.u64()),
+            _ => rng.float_exp(-1022, 1023),
+        };
+        if !x.is_nan() && (!finite_only || x.is_finite()) {
+            return x;
+        }
+    }
+}
+
+fn serde_event<T>(ty: &str, format: &str, shape: &[usize], v: &T, flat: &dyn Fn(&T) -> (Vec<usize>, Vec<f64>), back: Result<T, String>) -> Value
+where
+    T: PartialEq,
+{
+    let (_, a) = flat(v);
+    match back {
+        Ok(w) => {
+            let (s2, b) = flat(&w);
+            json!({"ev":"serde","type":ty,"format":format,"shape":shape,"a":jbs(&a),"ok":true,"shape2":s2,"b":jbs(&b),"eq":*v == w})
+        }
+        Err(m) => json!({"ev":"serde","type":ty,"format":format,"shape":shape,"a":jbs(&a),"ok":false,"shape2":[],"b":[],"eq":false,"err":m}),
+    }
+}
+
+#[cfg(feature = "borsh")]
+pub trait MaybeBorsh: borsh::BorshSerialize + borsh::BorshDeserialize {}
+#[cfg(feature = "borsh")]
+impl<T: borsh::BorshSerialize + borsh::BorshDeserialize> MaybeBorsh for T {}
+#[cfg(not(feature = "borsh"))]
+pub trait MaybeBorsh {}
+#[cfg(not(feature = "borsh"))]
+impl<T> MaybeBorsh for T {}
+
+#[cfg(feature = "borsh")]
+fn borsh_roundtrip<T: MaybeBorsh>(v: &T) -> Option<Result<T, String>> {
+    Some(borsh::to_vec(v).map_err(|e| e.to_string()).and_then(|b| borsh::from_slice::<T>(&b).map_err(|e| e.to_string())))
+}
+#[cfg(not(feature = "borsh"))]
+fn borsh_roundtrip<T: MaybeBorsh>(_v: &T) -> Option<Result<T, String>> {
+    None
+}
+
+fn serde_all<T>(ty: &str, v: &T, flat: &dyn Fn(&T) -> (Vec<usize>, Vec<f64>), sink: &mut Sink)
+where
+    T: Serialize + DeserializeOwned + PartialEq + MaybeBorsh,
+{
+    let (shape, a) = flat(v);
+    if a.iter().all(|x| x.is_finite()) {
+        let r = serde_json::to_string(v).map_err(|e| e.to_string()).and_then(|s| serde_json::from_str::<T>(&s).map_err(|e| e.to_string()));
+        sink.ev(serde_event(ty, "json", &shape, v, flat, r));
+    }
+    let r = serde_cbor::to_vec(v).map_err(|e| e.to_string()).and_then(|b| serde_cbor::from_slice::<T>(&b).map_err(|e| e.to_string()));
+    sink.ev(serde_event(ty, "cbor", &shape, v, flat, r));
+    if let Some(r) = borsh_roundtrip(v) {
+        sink.ev(serde_event(ty, "borsh", &shape, v, flat, r));
+    }
+}
+
+macro_rules! serde_form {
+    ($T:ty, $rng:expr, $sink:expr) => {{
+        let finite = $rng.bool();
+        let n = <$T as Form>::arity().unwrap();
+        let flatv: Vec<f64> = (0..n).map(|_| serde_number($rng, finite)).collect();
+        let v = <$T>::from_flat(&flatv);
+        serde_all::<$T>(&<$T as Form>::name(), &v, &|x: &$T| (vec![x.flat().len()], x.flat()), $sink);
+        // a segment and a piecewise function of 0..n segments over it
+        let sv = Segment { end: serde_number($rng, finite), poly: v };
+        serde_all::<Segment<$T>>(&format!("Segment<{}>", <$T as Form>::name()), &sv, &|x: &Segment<$T>| (vec![x.flat().len()], x.flat()), $sink);
+        let k = $rng.size(6, 20, 4) as usize;
+        let pw: Piecewise<$T> = Piecewise {
+            segments: (0..k)
+                .map(|_| Segment { end: serde_number($rng, finite), poly: <$T>::from_flat(&(0..n).map(|_| serde_number($rng, finite)).collect::<Vec<f64>>()) })
+                .collect(),
+        };
+        serde_all::<Piecewise<$T>>(&format!("Piecewise<{}>", <$T as Form>::name()), &pw, &|x: &Piecewise<$T>| (vec![n + 1; x.segments.len()], pw_flat(x)), $sink);
+    }};
+}
+
+pub fn drive_serde(seed: u64, rounds: usize, sink: &mut Sink) -> usize {
+    let mut rng = Rng::new(seed);
+    for _ in 0..rounds {
+        let rng = &mut rng;
+        {
+            let finite = rng.bool();
+            let k = Knot { x: serde_number(rng, finite), y: serde_number(rng, finite) };
+            serde_all::<Knot>("Knot", &k, &|x: &Knot| (vec![2], vec![x.x, x.y]), sink);
+        }
+        serde_form!(Poly0, rng, sink);
+        serde_form!(Poly1, rng, sink);
+        serde_form!(Poly2, rng, sink);
+        serde_form!(Poly3, rng, sink);
+        serde_form!(Poly4, rng, sink);
+        serde_form!(Poly5, rng, sink);
+        serde_form!(Poly6, rng, sink);
+        serde_form!(Poly7, rng, sink);
+        serde_form!(Poly8, rng, sink);
+        serde_form!(Log<Poly0>, rng, sink);
+        serde_form!(Log<Poly4>, rng, sink);
+        serde_form!(Log<Poly8>, rng, sink);
+        serde_form!(IntOfLog<Poly0>, rng, sink);
+        serde_form!(IntOfLog<Poly2>, rng, sink);
+        serde_form!(IntOfLog<Poly5>, rng, sink);
+        serde_form!(IntOfLog<Poly8>, rng, sink);
+        serde_form!(IntOfLogPoly4, rng, sink);
+    }
+    sink.n
+}
